@@ -176,7 +176,7 @@ def candidate_filter(sort_name, terms, maxrank=9):
             return (4, n, '')
         if n <= 6 and has_skolem(t):
             return (0, n, '')
-        if n <= 8 and t.get_id() in _INDEXTERM:
+        if n <= 60 and t.get_id() in _INDEXTERM:
             return (1, n, '')
         if z3.is_app(t) and t.decl().kind() == z3.Z3_OP_SELECT and is_ghost_array(t.arg(0)) and n <= 40:
             return (1, n, '')
